@@ -312,12 +312,16 @@ theorem strict_dirTimes (o : Opts) (dest : Str) : ∀ (es : List Entry), Strict 
   | [] => strict_pure o _ _
   | e :: es => by
     simp only [dirTimesP]
-    refine bindErr o _ _ (strict_sys o _) ?_ ?_
-    · intro r hr; simp only [hr, if_true]; exact All_pure _ ne_ok_err
-    · intro r
-      split
-      · exact strict_pure o _ _
-      · exact strict_dirTimes o dest es
+    refine bindS o _ _ (strict_info o _ rfl (fun _ => False)) (fun _ h => h.elim) ?_
+    intro l
+    split
+    · exact strict_dirTimes o dest es
+    · refine bindErr o _ _ (strict_sys o _) ?_ ?_
+      · intro r hr; simp only [hr, if_true]; exact All_pure _ ne_ok_err
+      · intro r
+        split
+        · exact strict_pure o _ _
+        · exact strict_dirTimes o dest es
 
 
 /-- overlay conversion on extraction: a refused setxattr / mknod / chown is reported -/
